@@ -496,6 +496,34 @@ func runC05(o *out, thorough bool, r *rng, _ []string) map[string]interface{} {
 				}
 			}
 		}
+		// a valid MESSAGE-INTEGRITY followed by a FINGERPRINT-TYPED attribute of any value length (0, 1..3, 5..40):
+		// both checks are decided by the model
+		if i%2 == 0 {
+			plain := signedMessage(r, key, r.intn(3), 0, true, false)
+			l := []int{0, 1, 2, 3, 5, 6, 7, 8, 12, 20, 40}[i/2%11]
+			tl := r.tlv(0x8028, r.bytes(l), l)
+			ext := append(append([]byte(nil), plain...), tl...)
+			bl := len(ext) - 20
+			ext[2], ext[3] = byte(bl>>8), byte(bl)
+			checkCase(o, r, 6, ext, key, "odd-sized-fingerprint-after-integrity")
+			checkCase(o, r, 7, ext, key, "odd-sized-fingerprint-after-integrity")
+		}
+		// a FINGERPRINT whose entry in the attribute list was written by the caller as a literal without the Length
+		// field (it is ignored while encoding): the fingerprint check goes by the value, so its verdict is the one
+		// on the list as decoded
+		if i%4 == 1 {
+			withFP := signedMessage(r, key, r.intn(3), 0, i%8 == 1, true)
+			dm := new(stun.Message)
+			if stun.Decode(withFP, dm) == nil {
+				before := stun.Fingerprint.Check(dm)
+				for k := range dm.Attributes {
+					dm.Attributes[k] = stun.RawAttribute{Type: dm.Attributes[k].Type, Value: dm.Attributes[k].Value}
+				}
+				if err := stun.Fingerprint.Check(dm); (err == nil) != (before == nil) {
+					o.fail("check-depends-on-the-length-field", fmt.Sprintf("701 %s - 7,0 - (attribute list as decoded: %v; rewritten by the caller as literals without Length: %v)", fHex(withFP), before, err))
+				}
+			}
+		}
 		// a leading type bit flipped in transit, and the receiver checking integrity BEFORE the fingerprint: the
 		// fingerprint still catches it
 		if i%2 == 0 {
